@@ -22,6 +22,10 @@ class ParseError(Exception):
     pass
 
 
+class ForeignSymbol(ParseError):
+    """A plain letter (not a function head, not a differential) that is not the display name of any atom of the expression."""
+
+
 _CMD = re.compile(r"\\[A-Za-z]+")
 _NUM = re.compile(r"\d+(\.\d+)?")
 _ALNUM = re.compile(r"[A-Za-z0-9]")
@@ -349,7 +353,31 @@ class Parser:
             return ("const", "E")
         if v == "i":
             return ("const", "I")
-        raise ParseError(f"unknown letter {v!r} (not a display name of any atom of the expression)")
+        if v == "d" or self._head_ahead():
+            # differential sign of a pattern the reader does not know / head of a special function it does not know
+            raise ParseError(f"unknown letter {v!r} (not a display name of any atom of the expression)")
+        raise ForeignSymbol(f"unknown letter {v!r} (not a display name of any atom of the expression)")
+
+    def _head_ahead(self) -> bool:
+        """Is the letter just taken followed (after optional sub/superscripts) by an opening call bracket?"""
+        j = self.p
+        n = len(self.toks)
+        while j < n and self.toks[j][1] in ("_", "^"):
+            j += 1
+            if j < n and self.toks[j] == ("sym", "{"):
+                depth = 0
+                while j < n:
+                    if self.toks[j] == ("sym", "{"):
+                        depth += 1
+                    elif self.toks[j] == ("sym", "}"):
+                        depth -= 1
+                        if depth == 0:
+                            break
+                    j += 1
+            j += 1
+        if j < n and self.toks[j] == ("sym", "{"):
+            j += 1
+        return j < n and self.toks[j][1] in ("\\left", "(", "\\left(")
 
     def factor(self) -> Any:
         base = self.base()
